@@ -1415,3 +1415,26 @@ pub mod tests {
         PoseidonConfig::new(full_rounds, partial_rounds, alpha, mds, ark, 2, 1)
     }
 }
+
+/// Verification hooks: thin public wrappers around crate-private helpers, compiled only with
+/// `--cfg arkworks_rs_poly_commit_verif` (or under Kani). They add no behaviour.
+#[cfg(any(kani, arkworks_rs_poly_commit_verif))]
+pub mod verif_hooks {
+    use super::*;
+
+    /// `utils::ceil_div`
+    pub fn ceil_div(x: usize, y: usize) -> usize {
+        utils::ceil_div(x, y)
+    }
+    /// `utils::ceil_mul`
+    pub fn ceil_mul(a: usize, b: (usize, usize)) -> usize {
+        utils::ceil_mul(a, b)
+    }
+    /// `lc_query_set_to_poly_query_set`
+    pub fn lc_query_set_to_poly_query_set<'a, F: Field, T: Clone + Ord>(
+        linear_combinations: impl IntoIterator<Item = &'a LinearCombination<F>>,
+        query_set: &QuerySet<T>,
+    ) -> QuerySet<T> {
+        super::lc_query_set_to_poly_query_set(linear_combinations, query_set)
+    }
+}
